@@ -400,7 +400,7 @@ func (t *Tree) internalDelete(subpath []string, condition func(interface{}) bool
 					}
 				}
 				if del {
-					delete(b, k)
+					t.unlink(b, k, root)
 				}
 			}
 			return len(b) == 0, allLeaves
@@ -434,7 +434,7 @@ func (t *Tree) internalDelete(subpath []string, condition func(interface{}) bool
 			}
 			// Remove branch if requested.
 			if delBr {
-				delete(b, subpath[0])
+				t.unlink(b, subpath[0], root)
 			}
 			// Node contains no branches so remove this branch node as well.
 			if len(b) == 0 {
@@ -446,6 +446,21 @@ func (t *Tree) internalDelete(subpath []string, condition func(interface{}) bool
 	}
 	// The subpath doesn't match any Tree branch, return empty list of leaves.
 	return false, nil
+}
+
+// unlink removes child k from b, the child map of t.  The caller holds the
+// write lock of the root only; a *Tree of a branch node handed out by Get may
+// be inside Children (which ranges over b under t's read lock), so the map of
+// a non-root node is changed under that node's own write lock.  (Such a holder
+// owns a single lock and acquires no other, so waiting for it cannot deadlock.)
+func (t *Tree) unlink(b branch, k string, root bool) {
+	if root {
+		delete(b, k)
+		return
+	}
+	t.mu.Lock()
+	delete(b, k)
+	t.mu.Unlock()
 }
 
 // DeleteConditional removes all leaves at or below subpath as well as any
